@@ -39,6 +39,7 @@ type Exec struct {
 	witnesses []witness
 	curTrail  []string
 	callSeen  map[string]bool
+	topLets   map[string]Val
 	curTag    string
 	loopEff   map[string]*loopEffects
 	topTargetsDone  bool
